@@ -17,7 +17,11 @@ import (
 	"github.com/nspcc-dev/neo-go/pkg/core/transaction"
 	"github.com/nspcc-dev/neo-go/pkg/neotest"
 	"github.com/nspcc-dev/neo-go/pkg/neotest/chain"
+	"github.com/nspcc-dev/neo-go/pkg/encoding/bigint"
 	"github.com/nspcc-dev/neo-go/pkg/smartcontract"
+	"github.com/nspcc-dev/neo-go/pkg/smartcontract/manifest"
+	"github.com/nspcc-dev/neo-go/pkg/smartcontract/nef"
+	"github.com/nspcc-dev/neo-go/pkg/vm/opcode"
 	"github.com/nspcc-dev/neo-go/pkg/util"
 	"github.com/nspcc-dev/neo-go/pkg/vm/stackitem"
 	"go.uber.org/zap"
@@ -34,6 +38,7 @@ type env struct {
 	gasID  int32
 	neoID  int32
 	polID  int32
+	mgmtID int32
 	nonce  uint32
 }
 
@@ -55,8 +60,31 @@ func newEnv() *env {
 	v.gasID = e.NativeID(tb, nativenames.Gas)
 	v.neoID = e.NativeID(tb, nativenames.Neo)
 	v.polID = e.NativeID(tb, nativenames.Policy)
-	v.w.ext = util.Uint160{0xee, 8, 8, 8}
+	v.w.mgmt = e.NativeHash(tb, nativenames.Management)
+	v.mgmtID = e.NativeID(tb, nativenames.Management)
+	v.w.plain = map[int]util.Uint160{}
+	for _, a := range plainAccounts {
+		// descending hashes for ascending numbers: block-list insert positions vary
+		v.w.plain[a] = util.Uint160{byte(0xf0 - a), 8, 8, byte(a)}
+	}
 	v.sender = e.NewAccount(tb, 100000_0000_0000)
+	for d := 0; d < numAux; d++ {
+		ne, err := nef.NewFile([]byte{byte(opcode.RET)})
+		if err != nil {
+			panic(err)
+		}
+		m := manifest.DefaultManifest(fmt.Sprintf("aux%d", d))
+		m.ABI.Methods = []manifest.Method{{Name: "x", Offset: 0, ReturnType: smartcontract.VoidType, Parameters: []manifest.Parameter{}}}
+		v.w.auxNef[d], err = ne.Bytes()
+		if err != nil {
+			panic(err)
+		}
+		v.w.auxMan[d], err = json.Marshal(m)
+		if err != nil {
+			panic(err)
+		}
+		v.w.auxHash[d] = state.CreateContractHash(v.sender.ScriptHash(), ne.Checksum, m.Name)
+	}
 	// deploy the interpreter contracts in one block
 	var txs []*transaction.Transaction
 	for i := 0; i < numContracts; i++ {
@@ -116,9 +144,11 @@ type snapshot struct {
 	store   []kv             // contract storage: (contract index, key, value), sorted
 	gas     map[int]*big.Int // GAS balance per contract index; -1 = sender
 	neo     map[int]*big.Int
-	feePB   int64 // Policy.getFeePerByte via the native cache
-	feePBst string
-	odd     []string // storage entries outside the expected one-byte shape
+	feePB   int64       // Policy.getFeePerByte via the native cache
+	blocked map[int]bool // plain accounts in Policy's blocked list
+	aux     map[int]int  // deployed auxiliary contracts: index -> contract ID
+	nextID  int
+	odd     []string // unexpected storage entries; native cache values that differ from storage
 }
 
 func (v *env) snap() *snapshot {
@@ -137,7 +167,9 @@ func (v *env) snap() *snapshot {
 		s.neo[i] = nb
 	}
 	s.gas[senderAcc] = v.bc.GetUtilityTokenBalance(v.sender.ScriptHash(), util.Uint160{})
-	s.gas[extAcc] = v.bc.GetUtilityTokenBalance(v.w.ext, util.Uint160{})
+	for _, a := range plainAccounts {
+		s.gas[a] = v.bc.GetUtilityTokenBalance(v.w.plain[a], util.Uint160{})
+	}
 	sort.Slice(s.store, func(a, b int) bool {
 		if s.store[a].c != s.store[b].c {
 			return s.store[a].c < s.store[b].c
@@ -145,6 +177,38 @@ func (v *env) snap() *snapshot {
 		return s.store[a].k < s.store[b].k
 	})
 	s.feePB = v.bc.FeePerByte()
+	if st := v.bc.GetStorageItem(v.polID, []byte{10}); st == nil || bigint.FromBytes(st).Int64() != s.feePB {
+		s.odd = append(s.odd, fmt.Sprintf("feePerByte cache=%d storage=%x", s.feePB, []byte(st)))
+	}
+	s.blocked = map[int]bool{}
+	inv := v.e.CommitteeInvoker(v.w.policy)
+	for _, a := range plainAccounts {
+		h := v.w.plain[a]
+		inStorage := v.bc.GetStorageItem(v.polID, append([]byte{15}, h.BytesBE()...)) != nil
+		stk, err := inv.TestInvoke(v.tb, "isBlocked", h)
+		if err != nil || stk.Len() != 1 {
+			panic(fmt.Sprintf("isBlocked test invocation failed: %v", err))
+		}
+		inCache := stk.Pop().Bool()
+		if inCache != inStorage {
+			s.odd = append(s.odd, fmt.Sprintf("blocked[%d] cache=%v storage=%v", a, inCache, inStorage))
+		}
+		s.blocked[a] = inCache
+	}
+	s.aux = map[int]int{}
+	for d := 0; d < numAux; d++ {
+		cs := v.bc.GetContractState(v.w.auxHash[d]) // through the Management cache
+		inStorage := v.bc.GetStorageItem(v.mgmtID, append([]byte{8}, v.w.auxHash[d].BytesBE()...)) != nil
+		if (cs != nil) != inStorage {
+			s.odd = append(s.odd, fmt.Sprintf("aux[%d] cache=%v storage=%v", d, cs != nil, inStorage))
+		}
+		if cs != nil {
+			s.aux[d] = int(cs.ID)
+		}
+	}
+	if st := v.bc.GetStorageItem(v.mgmtID, []byte{15}); st != nil {
+		s.nextID = int(bigint.FromBytes(st).Int64())
+	}
 	return s
 }
 
@@ -190,6 +254,19 @@ func (v *env) eventsOf(aer *state.AppExecResult, entry util.Uint160) ([]event, [
 				t = 101
 			}
 			res = append(res, event{t, int(bi.Int64())})
+		case n.Name == "Deploy" && len(arr) == 1 && n.ScriptHash.Equals(v.w.mgmt):
+			b, _ := arr[0].TryBytes()
+			d := -1
+			for i := range v.w.auxHash {
+				if bytes.Equal(b, v.w.auxHash[i].BytesBE()) {
+					d = i
+				}
+			}
+			if d < 0 {
+				odd = append(odd, "deploy-of-unknown")
+				continue
+			}
+			res = append(res, event{mgmtTab, d})
 		default:
 			odd = append(odd, n.ScriptHash.StringLE()+":"+n.Name)
 		}
